@@ -24,6 +24,9 @@ EV_CLASS = {
     # holder did nothing to cause (C02); a TOUCH that does not move the deadline the way it should likewise
     "IFStart": "C04+C02", "TouchCalc": "C04+C02", "DefStart": "C04", "ScanIF": "C04+C02", "ScanDef": "C04", "ReqClamp": "C04",
     "Send": "C07", "HRecv": "C07",
+    # a message past its deadline that three scans of its channel in a row leave where it is: not "soon after" (C04), and
+    # for as long as that lasts not redelivered either (C01)
+    "QSDone": "C04+C01",
     "HStatsC": "C13", "HStatsK": "C13", "HStatsT": "C13", "HStatsTopics": "C13",
     "EmptyBegin": "C08", "EmptyEnd": "C08", "IFReset": "C08", "DefReset": "C08", "CDeleted": "C08",
     "ReqExiting": "C08", "CMapAdd": "C08", "CCreated": "C08", "CDeleteBegin": "C08", "CExit": "C08",
@@ -51,6 +54,10 @@ def classify(detail):
             cls = "C08"          # a discarded message came back
         if loc == "Fin":
             cls = "C02"          # FIN was not final
+    if ev == "CPutBegin" and loc == "none":
+        m2 = re.search(r"copydef \|-> (\d+)", detail)
+        if m2 and int(m2.group(1)) > 0:
+            cls = "C04"          # a deferred publish queued for immediate delivery on one of its channels
     if ev == "TTake" and re.search(r'paused \|-> "yes"', detail):
         cls = "C03"
     if ev in ("Send", "HRecv") and re.search(r"att \|-> ", detail):
